@@ -109,7 +109,7 @@ Definition code_safe (f : form) : bool :=
   end.
 
 Definition known_raw (f : form) : bool :=
-  match f with FRaw ADialect | FRaw ATypeArgs => true | _ => false end.
+  match f with FRaw ADialect => true | _ => false end.
 
 Definition form_eqb (a b : form) : bool :=
   match a, b with
@@ -138,9 +138,6 @@ Proof.
 Qed.
 
 Lemma sites_dialect_witness : existsb (fun s => form_eqb (s_form s) (FRaw ADialect)) sites = true.
-Proof. vm_compute. reflexivity. Qed.
-
-Lemma sites_typeargs_witness : existsb (fun s => form_eqb (s_form s) (FRaw ATypeArgs)) sites = true.
 Proof. vm_compute. reflexivity. Qed.
 
 Theorem sites_full_refuted : ~ (forall s, In s sites -> code_safe (s_form s) = true).
